@@ -250,3 +250,22 @@ fn k_sqpk_header_update() {
     }
     kani::cover!(true, "reachable");
 }
+
+//@unit props=C03 label=S tier=quick fn=patch::SqpkTargetInfo(derive read) bound="123-byte command, all bytes zero except the 16-bit platform word (platform code 0..4 symbolic) and the region word 0xFFFF" stubs=fmt::format
+//@desc quick twin of k_sqpk_target_info: the target platform is the 16-bit big-endian code at offset 3 (its low byte), 123 bytes consumed
+#[kani::proof]
+#[kani::unwind(4)]
+#[kani::stub(alloc::fmt::format, stub_fmt)]
+fn k_sqpk_target_info_platform() {
+    let mut b = [0u8; 123];
+    let p: u8 = kani::any();
+    kani::assume(p <= 4);
+    b[4] = p;
+    b[5] = 0xFF; b[6] = 0xFF;
+    let mut c = Cursor::new(&b[..]);
+    match SqpkTargetInfo::read(&mut c) {
+        Ok(t) => { assert!(t.platform as u8 == p, "platform is the 16-bit big-endian code"); assert!(c.position() == 123, "123 bytes"); }
+        Err(e) => { core::mem::forget(e); assert!(false, "command parses"); }
+    }
+    kani::cover!(true, "reachable");
+}
